@@ -482,7 +482,9 @@ fn main() {
             let mut n_corpus = 0;
             for (name, text) in corpus() {
                 let short = name.rsplit('/').next().unwrap_or(&name).to_string();
-                if consider(&short, &name, &text, false, &mut grammars) {
+                // fixtures carry the probe assertions (!9c0 / !9ck / !9c9); repository grammars do not
+                let probes = name.starts_with("/verif/fixtures/") && text.contains("!900");
+                if consider(&short, &name, &text, probes, &mut grammars) {
                     n_corpus += 1;
                 }
             }
@@ -493,7 +495,7 @@ fn main() {
                     consider(&format!("extra{i}"), "extra", t, t.contains("!90"), &mut grammars);
                 }
             }
-            let want = if tier == "thorough" { 1200 } else { 150 };
+            let want = if tier == "thorough" { 1500 } else { 220 };
             let root = Rng::new(seed);
             let mut tried = 0usize;
             let mut got = 0usize;
